@@ -128,7 +128,10 @@ func c02Environment(g *c02Ghost, nodes []*RawNode, cancel context.CancelFunc) {
 		if g.skip[i] || g.answered[i] {
 			vAssume(false) // not a new event
 		}
-		r := <-nodes[i].channel.sendQ // the request must have been queued to be answered
+		r, ok := vTake(nodes[i]) // the request must have been queued to be answered
+		if !ok {
+			vAssume(false)
+		}
 		g.answered[i] = true
 		g.sent[i] = r.msg.Message
 		g.msgID = r.msg.Metadata.MessageID
